@@ -44,7 +44,7 @@ assert sh("git diff --quiet", cwd="/repo").returncode == 0, "/repo dirty"
 sh("git apply " + patch, cwd="/repo")
 t0 = time.time()
 try:
-    rc = sh("./check %s --tier quick" % prop, cwd="/verif", timeout=1800)
+    rc = sh("./check %s --tier quick" % prop, cwd="/verif", timeout=1800, env=dict(os.environ, VERIF_EVIDENCE_DIR="/tmp/vp-mutant-evidence"))
 finally:
     sh("git checkout -- .", cwd="/repo")
 lines = [l[:300] for l in rc.stdout.splitlines() if l.startswith(("VIOLATION", "KNOWN-FINDING", "DRIFT", "MACHINERY", prop + " tier", "  invariant"))]
